@@ -128,7 +128,7 @@ pub fn gen_c12(rng: &mut Rng, max_threads: usize, max_requests: usize) -> C12Cas
     let setup = if repeatable {
         match rng.below(3) {
             0 => Setup::Each,
-            1 => Setup::SomeN(rng.range(1, 4)),
+            1 => Setup::SomeN(rng.range(0, 4)),
             _ => Setup::EachAtLeast(rng.below(3)),
         }
     } else {
@@ -445,6 +445,41 @@ pub fn run_c12(case: &C12Case, strategy: Option<Strategy>) -> C12Trace {
         final_obs,
         exec,
     }
+}
+
+/// A successful request never needs a message about the call: the single-use value reaches its caller whatever
+/// the arguments' `Debug` impls do (they are only for error texts); it is then dropped exactly once.
+pub fn run_c12_norender() -> Result<(), String> {
+    toks::reset();
+    for setup in 0..3 {
+        let t = Tok::new();
+        let id = t.id;
+        let m = &|m: &mut unimock::private::Matching<_>| m.func(|_, _| true);
+        let u = match setup {
+            0 => Unimock::new(TMock::t_arg.some_call(m).returns(t)),
+            1 => Unimock::new(TMock::t_arg.next_call(m).returns(t)),
+            _ => Unimock::new(TMock::t_arg.some_call(m).returns(t).once()),
+        };
+        let got = guarded(|| u.t_arg(toks::NoRender(1)));
+        match got {
+            Ok(tok) if tok.id == id => drop(tok),
+            Ok(tok) => return Err(format!("setup {setup}: value {} delivered instead of {id}", tok.id)),
+            Err(o) => {
+                let _ = guarded(move || drop(u));
+                return Err(format!(
+                    "setup {setup}: the only request for a single-use value did not receive it: {o:?} (value drop count {})",
+                    toks::drops(id)
+                ));
+            }
+        }
+        if let Err(o) = guarded(move || drop(u)) {
+            return Err(format!("setup {setup}: verification after one delivered request failed: {o:?}"));
+        }
+        if toks::drops(id) != 1 {
+            return Err(format!("setup {setup}: value dropped {} times", toks::drops(id)));
+        }
+    }
+    Ok(())
 }
 
 pub fn check_c12(case: &C12Case, t: &C12Trace) -> Option<Discrepancy> {
@@ -1234,6 +1269,18 @@ pub fn run_child(what: &str, args: &[String], acc: &mut Acc) -> bool {
         "c12" => {
             install_hook();
             let dfs_cap: usize = arg(args, "--dfs-cap").unwrap_or("2000".into()).parse().unwrap();
+            acc.executions += 1;
+            acc.bump("norender_scenarios");
+            if let Err(e) = run_c12_norender() {
+                acc.violations += 1;
+                let d = Discrepancy {
+                    props: vec!["C12", "C02"],
+                    at: "request with an argument whose Debug impl panics".into(),
+                    expected: "the value is handed to the (only) caller; Debug is not needed for a successful call".into(),
+                    observed: e,
+                };
+                emit("c12", seed, worker, 0, &d, "t_arg(NoRender) on some_call/next_call .returns(v)", "sequential");
+            }
             for index in 0..cases {
                 let mut rng = Rng::new(mix3(seed ^ 0xC12, worker, index));
                 let case = gen_c12(&mut rng, 4, if index % 2 == 0 { 2 } else { 3 });
